@@ -1,12 +1,132 @@
 /- Drv/C15.lean — driver handler for property C15 (line protocol; core-only imports). -/
 import FunsorVerif.Core.Sexp
 import FunsorVerif.Core.XR
+import FunsorVerif.Model.C15
+import FunsorVerif.Gen.C15OpTables
 namespace FV.Drv.C15
-open FV
+open FV FV.C15
 
-/-- `args` are the top-level S-expressions following the property tag on the request line. -/
+def showCS (s : CSet) : String := "(" ++ " ".intercalate (s.map Cls.name) ++ ")"
+
+def showTag : Tag → String
+  | .none => "none" | .x => "x" | .y => "y"
+
+def showAV (a : AV) : String := "ok " ++ showCS (norm a.cs) ++ " " ++ showTag a.tag
+
+def showOAV : Option AV → String
+  | some a => showAV a
+  | none => "ok raises"
+
+def parseCls (s : Sexp) : Option Cls := s.asAtom?.bind Cls.ofName?
+
+def parseClsList (s : Sexp) : Option (List Cls) := do
+  let xs ← s.asList?
+  xs.mapM parseCls
+
+def parseOrd : Sexp → Option Ordering
+  | Sexp.atom "lt" => some .lt
+  | Sexp.atom "eq" => some .eq
+  | Sexp.atom "gt" => some .gt
+  | _ => none
+
+def parseOp (s : String) : Op :=
+  match s with
+  | "add" => .add | "sub" => .sub | "mul" => .mul | "truediv" => .truediv | "pow" => .pow
+  | "max" => .max | "min" => .min | "and_" => .and_ | "or_" => .or_ | "xor" => .xor
+  | "logaddexp" => .logaddexp | "sample" => .sample | "safesub" => .safesub
+  | "safediv" => .safediv | "neg" => .neg | "reciprocal" => .reciprocal | n => .other n
+
+def prim2 : String → Option (Cls → Cls → CSet)
+  | "add" => some addC | "sub" => some subC | "mul" => some mulC | "div" => some divC
+  | "maxnp" => some maxNpC | "minnp" => some minNpC | "maxpy" => some maxPyC
+  | "minpy" => some minPyC | _ => none
+
+def prim1 : String → Option (Cls → CSet)
+  | "neg" => some (fun c => [negC c]) | "recip" => some recipC | "exp" => some expC
+  | "lognp" => some logNpC | "logpy" => some logPyC
+  | "cliplo" => some (fun c => [clipLoC c]) | "cliphi" => some (fun c => [clipHiC c])
+  | _ => none
+
+def pairsSexp (t : List (Op × Op)) : String :=
+  "ok (" ++ " ".intercalate (t.map fun (a, b) => "(" ++ a.name ++ " " ++ b.name ++ ")") ++ ")"
+
+/--
+  C15 prim NAME a [b]                    class set of a primitive transfer function
+  C15 special OP VARIANT cx cy ord       logaddexp | safesub | safediv | max | min | sample
+  C15 special1 OP VARIANT c              reciprocal | log
+  C15 lse (c…)                           ops.logsumexp over an array of classes
+  C15 einsumlog OVF (x…) (y…)            numpy_log einsum "a,a->"  (OVF = true|false)
+  C15 einsummax (x…) (y…)                numpy_map einsum "a,a->"
+  C15 eval OP a b                        exact XR value of a table op
+  C15 table NAME                         the generated table, as op-name pairs
+  C15 inok cx cy ord                     is the abstract input consistent?
+-/
 def handle (args : List Sexp) : String :=
   match args with
-  | _ => "err unimplemented"
+  | [Sexp.atom "prim", Sexp.atom nm, a] =>
+    match prim1 nm, parseCls a with
+    | some f, some c => "ok " ++ showCS (norm (f c))
+    | _, _ => "err bad-args"
+  | [Sexp.atom "prim", Sexp.atom nm, a, b] =>
+    match prim2 nm, parseCls a, parseCls b with
+    | some f, some c, some d => "ok " ++ showCS (norm (f c d))
+    | _, _, _ => "err bad-args"
+  | [Sexp.atom "special", Sexp.atom op, Sexp.atom v, cx, cy, ord] =>
+    match Variant.ofName? v, parseCls cx, parseCls cy, parseOrd ord with
+    | some v, some cx, some cy, some ord =>
+      let i : In := ⟨cx, cy, ord⟩
+      if !i.ok then "err inconsistent-input" else
+      match op with
+      | "logaddexp" => showAV (logaddexpV v i)
+      | "safesub" => showAV (safesubV v i)
+      | "safediv" => showOAV (safedivV v i)
+      | "max" => showAV (maxV v i)
+      | "min" => showAV (minV v i)
+      | "sample" => if v == .arr then showAV (sampleArr i) else showAV (logaddexpScalar i)
+      | _ => "err bad-op"
+    | _, _, _, _ => "err bad-args"
+  | [Sexp.atom "special1", Sexp.atom op, Sexp.atom v, c] =>
+    match Variant.ofName? v, parseCls c with
+    | some v, some c =>
+      match op with
+      | "reciprocal" => showOAV (reciprocalV v c)
+      | "log" => showAV (logV v c)
+      | _ => "err bad-op"
+    | _, _ => "err bad-args"
+  | [Sexp.atom "lse", xs] =>
+    match parseClsList xs with
+    | some (c :: cs) => "ok " ++ showCS (logsumexpA (c :: cs))
+    | _ => "err bad-args"
+  | [Sexp.atom "einsumlog", ovf, xs, ys] =>
+    match ovf.asBool?, parseClsList xs, parseClsList ys with
+    | some o, some (x :: xs), some (y :: ys) =>
+      if xs.length != ys.length then "err bad-args" else "ok " ++ showCS (logEinsumDot o (x :: xs) (y :: ys))
+    | _, _, _ => "err bad-args"
+  | [Sexp.atom "einsummax", xs, ys] =>
+    match parseClsList xs, parseClsList ys with
+    | some (x :: xs), some (y :: ys) =>
+      if xs.length != ys.length then "err bad-args" else "ok " ++ showCS (norm (maxEinsumDot (x :: xs) (y :: ys)))
+    | _, _ => "err bad-args"
+  | [Sexp.atom "eval", Sexp.atom op, a, b] =>
+    match XR.ofSexp? a, XR.ofSexp? b with
+    | some a, some b =>
+      match evalOp (parseOp op) a b with
+      | some r => "ok " ++ toString r
+      | none => "err not-exact-op"
+    | _, _ => "err bad-args"
+  | [Sexp.atom "table", Sexp.atom nm] =>
+    match nm with
+    | "units" => "ok (" ++ " ".intercalate (Gen.units.map fun (a, u) => "(" ++ a.name ++ " " ++ u.name ++ ")") ++ ")"
+    | "distributive" => pairsSexp Gen.distributive
+    | "binaryInverses" => pairsSexp Gen.binaryInverses
+    | "safeBinaryInverses" => pairsSexp Gen.safeBinaryInverses
+    | "unaryInverses" => pairsSexp Gen.unaryInverses
+    | "productToPower" => pairsSexp Gen.productToPower
+    | _ => "err bad-table"
+  | [Sexp.atom "inok", cx, cy, ord] =>
+    match parseCls cx, parseCls cy, parseOrd ord with
+    | some cx, some cy, some ord => "ok " ++ toString (In.ok ⟨cx, cy, ord⟩)
+    | _, _, _ => "err bad-args"
+  | _ => "err bad-request"
 
 end FV.Drv.C15
